@@ -40,6 +40,11 @@ def batch(R):
 def gen_pdf(w, tag, R, D, ctor="Sigma+Lambda+ld", diag=False):
     """GaussianPDF through the REAL constructor on well-formed generator arguments; returns (pdf, params)"""
     P = mods()["pdf"]
+    if tag in getattr(w, "diag_tags", ()):
+        # configuration option: this density is handed over as a GaussianDiagPDF (a diagonal-covariance instance of the
+        # same mathematical object; the callee must not care which class its argument has)
+        diag = True
+        w.diag_applied = True
     g = w.diag_spd(tag, batch(R), D) if diag else w.spd(tag, batch(R), D)
     mu = w.arr(f"m{tag}", *batch(R), D)
     cls = P.GaussianDiagPDF if diag else P.GaussianPDF
